@@ -82,17 +82,25 @@ def solve_cases(rng, tier, stats):
         guess = rng.random() < 0.4
         max_full = 0 if c % 2 == 1 else 500      # 0: every local system goes to the iterative (GMRES) solver, in both backends
         seed = rng.randrange(1 << 30)
-        label = "amen_solve/%s/d%d/prec-%s/maxfull%d%s" % (kind, d, prec, max_full, "/guess" if guess else "")
+        extra = {}
+        fam = ""
+        if c % 8 == 3:
+            # restart family: the local GMRES cannot reach its tolerance in one short cycle, so the restart logic of BOTH backends runs
+            d, N, kind, eps, max_full = 3, [16, 16, 16], "laplace", 1e-6, 50
+            prec = [None, "c", "r"][(c // 8) % 3]
+            extra = {"local_iterations": 10, "resets": 8}
+            fam = "/gmres-restart"
+        label = "amen_solve/%s/d%d/prec-%s/maxfull%d%s%s" % (kind, d, prec, max_full, "/guess" if guess else "", fam)
         box = {}
 
-        def impl(N=N, kind=kind, eps=eps, prec=prec, guess=guess, seed=seed, box=box, max_full=max_full):
+        def impl(N=N, kind=kind, eps=eps, prec=prec, guess=guess, seed=seed, box=box, max_full=max_full, extra=extra):
             tn.manual_seed(seed); np.random.seed(seed % (2 ** 32))
             A, b = system(rng, kind, N)
             x0 = torchtt.randn(N, [1] + [2] * (len(N) - 1) + [1]) if guess else None
             out = {}
             for cpp in (True, False):
                 tn.manual_seed(seed + 1)
-                x = S.amen_solve(A, b, x0=(x0.clone() if x0 is not None else None), eps=eps, nswp=40, preconditioner=prec, use_cpp=cpp, verbose=False, max_full=max_full)
+                x = S.amen_solve(A, b, x0=(x0.clone() if x0 is not None else None), eps=eps, nswp=40, preconditioner=prec, use_cpp=cpp, verbose=False, max_full=max_full, **extra)
                 if not isinstance(x, torchtt.TT) or x.is_ttm or list(x.N) != list(N):
                     box["shape"] = "use_cpp=%s returned shape %s" % (cpp, getattr(x, "N", None))
                     return "bad"
